@@ -53,7 +53,7 @@ def tie_a(programs, timeout=120, run_timeout=None):
     with open(inp, "w") as f:
         for i, k, t in programs: f.write(f"{i}\t{k}\t{' '.join(t.split())}\n")
     e = core.env_offline()
-    e.update({"VERIF_PROGRAMS": inp, "VERIF_OUT": outp, "CARGO_TARGET_DIR": os.path.join(core.VERIF, "harness", "target-macro")})
+    e.update({"VERIF_PROGRAMS": inp, "VERIF_OUT": outp, "CARGO_TARGET_DIR": core.target_dir() + "-macro"})
     cmd = ["cargo", "test", "--offline", "-q", "-p", "ascent_macro", "--features", "verif-hooks", "verif_driver"]
     t0 = time.time()
     timed_out = False
